@@ -18,6 +18,8 @@ struct LogEnt
     int level;
     long long code;
     std::string text;
+    long long t = 0;       // virtual time when logged
+    long long seq = 0;     // logical event counter (orders log entries against slices)
     bool has_loc = false;
     long long line = 0, col = 0;
     std::string path;
@@ -60,6 +62,7 @@ struct VMMon
     size_t trace_max = 0;          // record up to this many executed instructions
     size_t budget_override = 0;    // slice length override (0 = keep)
     bool concurrent = false;       // failpoints yield
+    long long tick_ns = 0;         // virtual time that passes per executed instruction
     // counters
     std::atomic<long long> instr{ 0 };
     std::atomic<long long> slices{ 0 };
@@ -73,7 +76,7 @@ struct VMMon
     long long stack_checks = 0;
     Shadow shadow;                                // last observation of the executing context
     // slice log
-    struct Slice { int ctx; long long t0, t1; long long n; int res; bool susp; long long wake; size_t budget; bool can_suspend; bool empty_after; };
+    struct Slice { int ctx; long long t0, t1; long long n; int res; bool susp; long long wake; size_t budget; bool can_suspend; bool empty_after; int known0; int known1; bool terminated; long long seq0; long long seq1; };
     std::vector<Slice> slice_log;
     // context identity -> small id. Only weak references: script handles report "done" through expiry
     // of the context, so the monitor must never keep a context alive.
@@ -88,6 +91,7 @@ struct VMMon
     std::atomic<unsigned long long> fp_rng{ 88172645463325252ULL };
 
     int ctx_id(sqf::runtime::runtime& r, sqf::runtime::context& c);
+    void scan_contexts(sqf::runtime::runtime& r);
     vj::value report(bool with_logs);
     void reset_run();
 };
@@ -102,6 +106,7 @@ struct VM
     ~VM();
 };
 
+long long next_seq();
 void monitors_install();
 VMMon* monitor_attach(sqf::runtime::runtime* rt);
 void monitor_detach(sqf::runtime::runtime* rt);
